@@ -336,3 +336,75 @@ def orphan_gate_history(hist_a: bool, hist_b: bool, hist_c: bool, done_b: bool, 
     else:
         h.check(accepted and enq == 1, "an update outside any completed context was rejected or lost")
     h.end()
+
+
+# ------------------------------------------------------------------------------------------------ the completion record is still in flight
+from harness.batcher import Client as _Client, World as _World  # noqa: E402
+
+
+class _CU(U):
+    def __init__(self, i, oid, parent, otype, action):
+        super().__init__(oid, parent, otype, action)
+        self.i = i
+
+
+def _mk_inflight(pto):
+    def lem(existing: bool, act_idx: int, pstep: int, slow_api: bool):
+        """
+        pre: 0 <= act_idx < 3 and 1 <= pstep <= 24
+        post: True
+        """
+        w = _World(10, 10, 0.2 if slow_api else 0.0, _Client(), pre_step=[pstep], pre_to=[pto])
+        st = w.state
+        # this invocation: context P and (optionally) its child X were started earlier
+        st._orig_create_checkpoint(_CU(0, "P", None, OperationType.CONTEXT, A.START), is_sync=False)
+        if existing:
+            st._orig_create_checkpoint(_CU(1, "X", "P", OperationType.STEP, A.START), is_sync=False)
+        outcome = {}
+
+        def completer():
+            yield from st._co_create_checkpoint(_CU(2, "P", None, OperationType.CONTEXT, A.SUCCEED), True)
+            outcome["P"] = "returned"
+
+        def orphan():
+            # the orphaned branch reaches its next checkpoint only after the parent's completion was handed over
+            class _Handed:
+                def is_set(self):
+                    return any(q.operation_update is not None and q.operation_update.i == 2 for q in w.handover)
+
+            ev = _Handed()
+            while not ev.is_set():
+                yield ("blocked", ev)
+            try:
+                yield from st._co_create_checkpoint(_CU(3, "X", "P", OperationType.STEP, [A.SUCCEED, A.RETRY, A.START][act_idx]), False)
+                outcome["X"] = "accepted"
+            except OrphanedChildException:
+                outcome["X"] = "rejected"
+
+        w.sched.spawn("completer", completer())
+        w.sched.spawn("orphan", orphan())
+        w.run()
+        if w.sched.k == 1:
+            h.reach("preempted")
+        h.check(outcome.get("X") == "rejected", "a descendant's checkpoint was accepted while the parent's completion record was in flight / handed over")
+        h.check(3 not in w.client.applied, "a descendant's update reached the backend after the parent's completion record")
+        h.end()
+
+    lem.__name__ = lem.__qualname__ = f"orphan_gate_completion_in_flight_to{pto}"
+    return h.lemma(timeout=400, funcs=FUNCS + ["state.ExecutionState.checkpoint_batches_forever"], reach=("end", "preempted"),
+                   bounds="pipeline world: thread 1 hands over the SYNCHRONOUS completion record of context P and blocks until it is applied; thread 2 (a descendant that "
+                          "existed before or is first started now) checkpoints SUCCEED/RETRY/START at any time after that hand-over; one solver-chosen preemption "
+                          f"(step 1..24) to thread {['consumer', 'completer', 'orphan'][pto]}")(lem)
+
+
+for _p in range(3):
+    _f = _mk_inflight(_p)
+    globals()[_f.__name__] = _f
+del _f, _p
+
+# an update of a descendant that was accepted BEFORE the completion record must also be DELIVERED before it: FIFO delivery across batch and overflow
+# boundaries (lemma shared with C05)
+from harness import C05 as _C05  # noqa: E402
+
+fifo_delivery_across_overflow = _C05.stream_sizes
+fifo_delivery_across_overflow.__module__ = __name__
